@@ -1,11 +1,18 @@
 #!/venv/bin/python
-"""Dry self-test run by setup_cmd: the harness modules import, rope is imported from /repo."""
-import importlib, json, os, sys
+"""Dry self-test run by setup_cmd: rope is imported from /repo, the harness modules import.
+A harness module that does not import is reported here and fails its own check later; setup itself only
+fails when the framework cannot run at all."""
+import importlib, json, os, sys, traceback
 V = os.path.dirname(os.path.dirname(os.path.abspath(__file__)))
 sys.path.insert(0, V); sys.path.insert(0, "/repo")
 from harness import common
 common.ensure_repo_on_path()
 m = json.load(open(os.path.join(V, "MANIFEST.json")))
+bad = 0
 for c in m["checks"]:
-    importlib.import_module("harness." + c["property_id"].lower())
-print("selftest ok: %d checks importable" % len(m["checks"]))
+    try:
+        importlib.import_module("harness." + c["property_id"].lower())
+    except Exception:
+        bad += 1
+        traceback.print_exc()
+print("selftest: %d checks, %d harness modules failed to import" % (len(m["checks"]), bad))
